@@ -7,7 +7,7 @@
  *   rest  bytes that follow the written text in the source that is read back
  *   mode  G = one print_to_with call and one scan_from_with call for the whole sequence
  *         E = one call per item; `$` items go through show_to / look_from directly
- *   tok   L<hex>                    literal text (no '%', no NUL)
+ *   tok   L<hex>                    literal text (no NUL; a '%' is doubled in the format)
  *         $i<dec>  $f<16 hex>  $s<hex>   Int / Float (bit pattern) / String written with %$ and read with %$
  *         N<pspec>/<sspec>:<val>    numeric directive: written with %<pspec>, read with %<sspec>
  *                                   ('_' in a spec stands for the space flag); val = <dec> for integer
@@ -118,11 +118,15 @@ static var mktarget(struct item* it) {
 /* format text of items [a, b) for the writer (w = 1) or the reader (w = 0) */
 static char* mkfmt(int a, int b, int w) {
   size_t cap = 16;
-  for (int i = a; i < b; i++) cap += 48 + (items[i].bytes ? strlen(items[i].bytes) : 0);
+  for (int i = a; i < b; i++) cap += 48 + (items[i].bytes ? 2 * strlen(items[i].bytes) : 0);
   char* f = malloc(cap); f[0] = 0;
   for (int i = a; i < b; i++) {
     struct item* it = &items[i];
-    if (it->kind == 'L') strcat(f, it->bytes);
+    if (it->kind == 'L') {               /* literal text; a '%' is written "%%" in a format */
+      size_t n = strlen(f);
+      for (const char* q = it->bytes; *q; q++) { f[n++] = *q; if (*q == '%') f[n++] = '%'; }
+      f[n] = 0;
+    }
     else if (it->kind == '$') strcat(f, "%$");
     else { strcat(f, "%"); strcat(f, w ? it->pspec : it->sspec); }
   }
